@@ -73,6 +73,11 @@ def run_request_case(case) -> dict:
     world = W.World(n)
     record: list = []
     cfg = {"legs": 2, "sig": sig}
+    # what the security provider says about its signature size BEFORE the context is complete: the final size (most providers), a
+    # refusal, or the size of a mechanism that is not the one finally negotiated
+    early = (None, "raise", {16: 28, 28: 16, 60: 76, 76: 60}[sig])[(n + vtv + sig // 4) % 3]
+    if early is not None and auth:
+        cfg["sig_early"] = early
     stubs = [bytes((i * 31 + 7 + 13 * k) & 0xFF for i in range(m)) for k, m in enumerate(lens)]
     stub = stubs[0]
 
@@ -272,7 +277,9 @@ def run_reply_case(case) -> dict:
 
     sd = dtyp.target_sd(sid)
     dc = refdc.RefDC(world, [rk], host=DC, caller_sids={sid} if member else set(), acceptor_factory=drive.stub_acceptor_factory(cfg),
-                     domain="d" * dlen, forest="f" * flen, rpc_knobs={"pad_mode": pad_mode, "alloc_hint": ah})
+                     domain="d" * dlen, forest="f" * flen,
+                     # (the reserved octet of the server's security trailer is not always 0: receivers ignore it)
+                     rpc_knobs={"pad_mode": pad_mode, "alloc_hint": ah, "auth_reserved": (0, 0, 1, 0xFF, 0x80)[(kl + dlen + 2 * flen) % 5]})
     with world.installed(ctx_factory=drive.stub_ctx_factory(cfg, record)):
         if fl == "sync":
             out = drive.classify(lambda: dclient._sync_get_key(DC, sd, rk.root_key_id, -1, -1, -1))
@@ -282,6 +289,7 @@ def run_reply_case(case) -> dict:
     probes = dict(pads)
     probes["alloc_hint_" + ah] = 1
     probes["sig_sizes_" + ("differ" if sig_srv != sig else "equal")] = 1
+    probes["auth_reserved_nonzero"] = int((kl + dlen + 2 * flen) % 5 >= 2)
     res = {"digest": world.digest() + out.brief(), "key": common.key_hash(case), "fired": {"reply_pad_policy_" + pad_mode.split(":")[0]: 1}, "probes": probes,
            "vtime_ns": world.stats.get("vtime_ns", 0), "viol": None}
 
@@ -403,7 +411,7 @@ class C13(common.Check):
             "reply path: GetKey replies from the reference DC whose envelope length sweeps every residue (DH key_length 5..12 incl. odd, "
             "domain/forest name lengths 0..7, seed and public-key replies) x server padding policy {pad to 16, pad to 4, extra 4k, exactly K for K in 0..15} so that "
             "pad_length 0..15 all occur; pairs of async GetKey calls in flight at once with replies of different lengths delivered in PRNG segments (NDR64 GetKey stubs are always 4-aligned, so K % 4 != 0 only arises from a lenient server: there a "
-            "raised error is tolerated, a wrong envelope never is); 2..3 caller threads making the first GetKey calls of a new interpreter at once (one child process per case; the reference DC decodes sealing, padding and verification trailer of every request). Non-trivial = every case (each has a distinct length residue/knob combination); distinct = "
+            "raised error is tolerated, a wrong envelope never is); a security provider that, before the context is complete, refuses the size query or reports another mechanism's signature size; server trailers whose reserved octet is not 0; 2..3 caller threads making the first GetKey calls of a new interpreter at once (one child process per case; the reference DC decodes sealing, padding and verification trailer of every request). Non-trivial = every case (each has a distinct length residue/knob combination); distinct = "
             "distinct parameter tuple.")
     components = {"client": "real (RpcClient._create_request/_prepare_pdu/_process_response, AuthenticationProvider.wrap/unwrap, "
                             "_process_get_key_result, GetKey.unpack_response)",
@@ -411,7 +419,7 @@ class C13(common.Check):
                   "DC": "model (RefDC)", "transport": "simulated"}
     assumptions = ["the quantifier is a parameter grid; what the simulation contributes is the second party (independent receiver, recording context)",
                    "alloc_hint is recorded, not judged"]
-    required_fired = tuple(f"reply_pad_{k}" for k in range(16)) + ("hs_1_auth_1", "hs_0_auth_1", "hs_0_auth_0", "hs_2_auth_1", "hs_3_auth_1", "hs_4_auth_1", "requests_on_one_connection", "seq_connections", "concurrent_replies", "alloc_hint_unpadded", "alloc_hint_zero", "sig_sizes_differ", "first_calls_from_threads_in_new_process")
+    required_fired = tuple(f"reply_pad_{k}" for k in range(16)) + ("hs_1_auth_1", "hs_0_auth_1", "hs_0_auth_0", "hs_2_auth_1", "hs_3_auth_1", "hs_4_auth_1", "requests_on_one_connection", "seq_connections", "concurrent_replies", "alloc_hint_unpadded", "alloc_hint_zero", "sig_sizes_differ", "first_calls_from_threads_in_new_process", "auth_reserved_nonzero")
 
     def exhaustive(self, tier):
         return True
